@@ -1,12 +1,27 @@
-//! C09: the text/binary form choice of `--journal-output export`.
+//! C09: the text/binary form choice of `--journal-output export`, and Rust's own f64 arithmetic and
+//! float formatting for the monotonic field of `short-monotonic`.
 //! in : <hex data object `KEY=VALUE`>
 //! out: 1 | 0   (`export_data_is_text`)   or PANIC
+//! in : M <microseconds as u64>
+//! out: hex of `format!("{:>12.6}", mu as f64 / 1000000.0)`  (the expression of `next_short`; divisor, width and
+//!      precision are scraped from the source by tools/gen/journal.py and compared with these by checks/c09_render.py)
 use s4lib::readers::journalreader::export_data_is_text;
 use s4verif::*;
 
 fn main() {
     for line in stdin_lines() {
-        let data = unhex(line.trim());
+        let l = line.trim();
+        if let Some(rest) = l.strip_prefix("M ") {
+            match rest.trim().parse::<u64>() {
+                Ok(mu) => {
+                    let mud = mu as f64 / 1000000.0;
+                    println!("{}", hex(format!("{:>12.6}", mud).as_bytes()));
+                }
+                Err(_) => println!("BAD"),
+            }
+            continue;
+        }
+        let data = unhex(l);
         match std::panic::catch_unwind(|| export_data_is_text(&data)) {
             Ok(true) => println!("1"),
             Ok(false) => println!("0"),
